@@ -1070,6 +1070,136 @@ def polling_stream(ctx, streams):
         shutil.rmtree(tmp, ignore_errors=True)
 
 
+# --------------------------------------------------------------------------
+# a trial writes its last reports and exits INSIDE one fetch_status_results call (real LocalBackend,
+# harness-side subclass hooking the public stdout() method)
+# --------------------------------------------------------------------------
+GATE_SCRIPT = r"""
+import json, os, sys, time
+from syne_tune import Reporter
+
+args = dict(zip(sys.argv[1::2], sys.argv[2::2]))
+sync_dir = args["--sync_dir"]
+plan = json.load(open(args["--plan"]))
+
+def signal_file(name):
+    open(os.path.join(sync_dir, name), "w").close()
+
+report = Reporter()
+print("starting up")
+for i, kw in enumerate(plan["reports"]):
+    if i == plan["before_gate"]:
+        t0 = time.time()
+        while not os.path.exists(os.path.join(sync_dir, "gate")) and time.time() - t0 < 120:
+            time.sleep(0.01)
+    report(**kw)
+    signal_file("made_%d" % i)
+if plan.get("tail"):
+    print("done", end="")
+sys.exit(plan.get("exit_code", 0))
+"""
+
+
+def gen_gate_plans(rng):
+    plans = []
+    for exit_code in (0, 0, 1):
+        k1, k2 = rng.randint(1, 3), rng.randint(1, 3)
+        reps = [dict(epoch=i + 1, loss=rng.randint(1, 99) / 128) for i in range(k1 + k2)]
+        plans.append(dict(reports=reps, before_gate=k1, exit_code=exit_code, tail=rng.random() < 0.5))
+    return plans
+
+
+def gated_stream(ctx, plans):
+    """What the tuner does: poll the running trials (one fetch_status_results call for all of them) and stop
+    polling a trial once it is reported completed / failed. While std.out of a trial is being read inside a
+    call, the trial writes its last reports and exits. Independent checker: the reports delivered by the
+    polls up to and including the one that reports the final status are all reports the script made."""
+    import logging
+    import shutil
+    import time
+    from syne_tune.backend import LocalBackend
+    from syne_tune.backend.trial_status import Status
+    case = dict(kind="gated", plans=plans)
+    tmp = tempfile.mkdtemp(prefix="c18_gate_")
+    logging.getLogger("syne_tune").setLevel(logging.WARNING)
+
+    class GatedLocalBackend(LocalBackend):
+        gates = {}      # trial_id -> (sync dir, number of reports before the gate); removed once used
+
+        def stdout(self, trial_id):
+            lines = super().stdout(trial_id)
+            g = self.gates.get(trial_id)
+            if g is None:
+                return lines
+            sync, k1 = g
+            if sum(1 for x in lines if TAGTXT in x and x.endswith("\n")) < k1:
+                return lines
+            # this content is being processed ... and meanwhile the script goes on and terminates
+            del self.gates[trial_id]
+            open(os.path.join(sync, "gate"), "w").close()
+            proc = self.trial_subprocess.get(trial_id)
+            if proc is not None:
+                proc.wait(timeout=60)
+            return lines
+
+    backend, trials = None, []
+    try:
+        script = os.path.join(tmp, "train_script.py")
+        open(script, "w").write(GATE_SCRIPT)
+        sink = io.StringIO()
+        with contextlib.redirect_stdout(sink), contextlib.redirect_stderr(sink):
+            backend = GatedLocalBackend(entry_point=script, rotate_gpus=False)
+            backend.set_path(results_root=os.path.join(tmp, "results"))
+        for t, plan in enumerate(plans):
+            sync = os.path.join(tmp, "sync%d" % t)
+            os.makedirs(sync)
+            planf = os.path.join(tmp, "plan%d.json" % t)
+            json.dump(plan, open(planf, "w"))
+            with contextlib.redirect_stdout(sink), contextlib.redirect_stderr(sink):
+                trial = backend.start_trial(config={"sync_dir": sync, "plan": planf})
+            trials.append((trial.trial_id, sync, plan))
+            backend.gates[trial.trial_id] = (sync, plan["before_gate"])
+        running = {tid for tid, _, _ in trials}
+        delivered = {tid: [] for tid in running}
+        final = {}
+        t0 = time.time()
+        while running and time.time() - t0 < 90:
+            st, res = backend.fetch_status_results(sorted(running))
+            for rid, m in res:
+                delivered[rid].append(m)
+            for tid, (_, status) in st.items():
+                if status != Status.in_progress:
+                    final[tid] = status
+                    running.discard(tid)          # Tuner.run never polls this trial again
+            time.sleep(0.02)
+        if running:
+            ctx.notes.append("gated stream: trials did not end (environment); skipped")
+            return
+        for tid, sync, plan in trials:
+            made = sum(1 for i in range(len(plan["reports"])) if os.path.exists(os.path.join(sync, "made_%d" % i)))
+            sent = plan["reports"][:made]
+            got = [{k: v for k, v in m.items() if k not in RESERVED} for m in delivered[tid]]
+            ctx.count(("gated", plan), nontrivial=True)
+            ctx.traces_validated += 1
+            ctx.h("gated", "exit_%d" % plan["exit_code"])
+            if got != sent:
+                ctx.violation("property", "LocalBackend trial wrote its last reports and exited while its std.out was being read inside "
+                              "a fetch_status_results call: the script made %r, but the polls up to and including the one reporting the "
+                              "trial as %s delivered %r (the tuner never polls the trial again)" % (sent, final[tid], got), case=case,
+                              signature=dict(component="LocalBackend", defect="final_status_with_incomplete_reports"))
+        ctx.sample(dict(kind="gated_stream", plans=plans, final={str(k): str(v) for k, v in final.items()}))
+    finally:
+        for tid, sync, _ in trials:
+            open(os.path.join(sync, "gate"), "w").close()
+            proc = backend.trial_subprocess.get(tid) if backend else None
+            if proc is not None and proc.poll() is None:
+                try:
+                    proc.wait(timeout=10)
+                except Exception:  # noqa
+                    proc.kill()
+        shutil.rmtree(tmp, ignore_errors=True)
+
+
 def prefix_cases(ctx, rng, lines_cases, lines_meta):
     """retrieve() on every prefix of a stream (a reader that sees the file while it grows): either exactly the
     complete reports so far, or an exception caused by the cut line — never a wrong or missing dictionary"""
@@ -1135,6 +1265,9 @@ def run(ctx, replay=None):
         elif replay.get("kind") == "backend_kill":
             backend_kill_stream(ctx, replay["plans"])
             return
+        elif replay.get("kind") == "gated":
+            gated_stream(ctx, replay["plans"])
+            return
         elif replay.get("kind") == "poll":
             polling_stream(ctx, [[tuple(c) for c in replay["chunks"]]])
             return
@@ -1167,6 +1300,7 @@ def run(ctx, replay=None):
         backend_stream(ctx, gen_backend_plans(rng))
         backend_kill_stream(ctx, gen_kill_plans(rng))
         polling_stream(ctx, gen_poll_streams(rng))
+        gated_stream(ctx, gen_gate_plans(rng))
     for i in ctx.coq_bad_cases("lines", IMPORTS, PRELUDE, "chk_lines", lines_cases, shard=150):
         ctx.violation("correspondence", "model readlines/retrieve_model differs from readlines()+re.findall of the real retrieve",
                       case=lines_meta[i], failing_input=False, broken="correspondence chk_lines (model/Report.v retrieve_model)")
